@@ -3,6 +3,7 @@ package engine
 import (
 	"context"
 	"errors"
+	"io"
 	"net"
 	"sync"
 	"time"
@@ -12,6 +13,10 @@ import (
 	"google.golang.org/grpc/reflection"
 	rpb "google.golang.org/grpc/reflection/grpc_reflection_v1alpha"
 	"google.golang.org/grpc/test/bufconn"
+	"google.golang.org/protobuf/proto"
+	"google.golang.org/protobuf/reflect/protodesc"
+	"google.golang.org/protobuf/reflect/protoreflect"
+	"google.golang.org/protobuf/reflect/protoregistry"
 
 	"verif/sim/core"
 )
@@ -21,6 +26,7 @@ import (
 type BackendSpec struct {
 	Tag      string   `json:"tag"`
 	Services []string `json:"services"` // implemented and (by default) advertised
+	Verbose  bool     `json:"verbose_reflection,omitempty"` // reflection answers repeat files already sent on the stream
 }
 
 // svcProvider is the ServiceInfoProvider of a backend's reflection service:
@@ -90,6 +96,73 @@ func (f *faultyReflection) setFailAfter(n int) {
 	f.mu.Unlock()
 }
 
+// verboseReflection is a second, independent implementation of the reflection
+// service: it answers every file request with the file and ALL of its
+// transitive dependencies, whether or not it already sent them on this stream
+// (grpc-go's own server leaves out what it has sent before; both behaviours
+// are within the protocol, and other servers do repeat files).
+type verboseReflection struct {
+	rpb.UnimplementedServerReflectionServer
+	provider *svcProvider
+}
+
+func fileWithDeps(fd protoreflect.FileDescriptor, seen map[string]bool, out *[][]byte) {
+	if seen[fd.Path()] {
+		return
+	}
+	seen[fd.Path()] = true
+	b, _ := proto.Marshal(protodesc.ToFileDescriptorProto(fd))
+	*out = append(*out, b)
+	imps := fd.Imports()
+	for i := 0; i < imps.Len(); i++ {
+		fileWithDeps(imps.Get(i).FileDescriptor, seen, out)
+	}
+}
+
+func (v *verboseReflection) ServerReflectionInfo(stream rpb.ServerReflection_ServerReflectionInfoServer) error {
+	for {
+		req, err := stream.Recv()
+		if err != nil {
+			if err == io.EOF {
+				return nil
+			}
+			return err
+		}
+		resp := &rpb.ServerReflectionResponse{ValidHost: req.Host, OriginalRequest: req}
+		fileResp := func(fd protoreflect.FileDescriptor, err error) {
+			if err != nil {
+				resp.MessageResponse = &rpb.ServerReflectionResponse_ErrorResponse{ErrorResponse: &rpb.ErrorResponse{ErrorCode: 5, ErrorMessage: err.Error()}}
+				return
+			}
+			var files [][]byte
+			fileWithDeps(fd, map[string]bool{}, &files)
+			resp.MessageResponse = &rpb.ServerReflectionResponse_FileDescriptorResponse{FileDescriptorResponse: &rpb.FileDescriptorResponse{FileDescriptorProto: files}}
+		}
+		switch r := req.MessageRequest.(type) {
+		case *rpb.ServerReflectionRequest_ListServices:
+			var svcs []*rpb.ServiceResponse
+			for _, name := range v.provider.get() {
+				svcs = append(svcs, &rpb.ServiceResponse{Name: name})
+			}
+			resp.MessageResponse = &rpb.ServerReflectionResponse_ListServicesResponse{ListServicesResponse: &rpb.ListServiceResponse{Service: svcs}}
+		case *rpb.ServerReflectionRequest_FileContainingSymbol:
+			d, err := protoregistry.GlobalFiles.FindDescriptorByName(protoreflect.FullName(r.FileContainingSymbol))
+			if err != nil {
+				fileResp(nil, err)
+			} else {
+				fileResp(d.ParentFile(), nil)
+			}
+		case *rpb.ServerReflectionRequest_FileByFilename:
+			fileResp(protoregistry.GlobalFiles.FindFileByPath(r.FileByFilename))
+		default:
+			resp.MessageResponse = &rpb.ServerReflectionResponse_ErrorResponse{ErrorResponse: &rpb.ErrorResponse{ErrorCode: 12, ErrorMessage: "not supported by the simulated backend"}}
+		}
+		if err := stream.Send(resp); err != nil {
+			return err
+		}
+	}
+}
+
 type backend struct {
 	spec     *BackendSpec
 	lis      *bufconn.Listener
@@ -117,7 +190,11 @@ func newBackend(sim *core.Sim, spec *BackendSpec, reqs map[int]*reqState) (*back
 	} else {
 		b.provider.set(spec.Services)
 	}
-	b.refl = &faultyReflection{ServerReflectionServer: reflection.NewServer(reflection.ServerOptions{Services: b.provider}), failAfter: -1}
+	var inner rpb.ServerReflectionServer = reflection.NewServer(reflection.ServerOptions{Services: b.provider})
+	if spec.Verbose {
+		inner = &verboseReflection{provider: b.provider}
+	}
+	b.refl = &faultyReflection{ServerReflectionServer: inner, failAfter: -1}
 	rpb.RegisterServerReflectionServer(b.srv, b.refl)
 	go b.srv.Serve(b.lis)
 	cc, err := grpc.NewClient("passthrough:///"+spec.Tag,
